@@ -215,13 +215,13 @@ Inductive pat :=
 | PNode (ps : list pat)          (* tuple / object / variant payload: children in order *)
 | POr (p : pat) (ps : list pat). (* first alternative, later alternatives *)
 
-(* later alternatives: identifiers are uses; a nested or-pattern is skipped entirely *)
+(* later alternatives: identifiers are uses, also those of an or-pattern nested in them *)
 Fixpoint emit_uses (p : pat) : list event :=
   match p with
   | PId x l => [Use x l false]
   | PWild => []
   | PNode ps => flat_map emit_uses ps
-  | POr _ _ => []
+  | POr p ps => emit_uses p ++ flat_map emit_uses ps
   end.
 
 Fixpoint emit (p : pat) : list event :=
@@ -241,16 +241,3 @@ Fixpoint ids (p : pat) : list N :=
   | POr p ps => ids p ++ flat_map ids ps
   end.
 
-(* the known class: an or-pattern sits inside a non-first alternative of an or-pattern *)
-Fixpoint has_or (p : pat) : bool :=
-  match p with
-  | PId _ _ | PWild => false
-  | PNode ps => existsb has_or ps
-  | POr _ _ => true
-  end.
-Fixpoint Known_C15 (p : pat) : bool :=
-  match p with
-  | PId _ _ | PWild => false
-  | PNode ps => existsb Known_C15 ps
-  | POr p ps => Known_C15 p || existsb has_or ps
-  end.
